@@ -95,9 +95,9 @@ Print Assumptions C20_time_window.
 (* Round trip.  year_ok pad t :=  if pad then 0001-01-01 00:00:00 <= t <= 9999-12-31 23:59:59
                                   else         1000-01-01 00:00:00 <= t <= 9999-12-31 23:59:59.
    Full statement (every instant of years 1..9999) for an RFC-correct, zero-padding strftime: *)
-Theorem C20_roundtrip : forall t, (min_t <= t <= max_t)%Z -> parse_rfc1123 (rfc1123 true t) = Some t.
+Theorem C20_roundtrip_if_year_padded : forall t, (min_t <= t <= max_t)%Z -> parse_rfc1123 (rfc1123 true t) = Some t.
 Proof. exact (parse_rfc1123_rfc1123 true). Qed.
-Print Assumptions C20_roundtrip.
+Print Assumptions C20_roundtrip_if_year_padded.
 
 (* FULL STATEMENT for the implementation as it is (pad = false):
      forall t, (min_t <= t <= max_t)%Z -> parse_rfc1123 (rfc1123 false t) = Some t
